@@ -437,12 +437,41 @@ def program_level():
     return out
 
 
+def unit_and_noreturn():
+    """(a) effects sequenced through a unit-like type: the scrutinee of a single-clause match without binders has effects
+    (print, conditional exit, goto); (b) definitions that never use their return continuation: every path ends in exit or in a
+    goto to a covariable parameter, with a call as the operand (the positional statement comes first in the body)"""
+    out = []
+    defs = ("def show(x: i64): Unit { println_i64(x); U }\n"
+            "def check(x: i64): Unit { if x < 0 { exit 3 } else { U } }\n"
+            "def dbl(x: i64): i64 { println_i64(x); x * 2 }\n"
+            "def finish(x: i64): i64 { exit dbl(x) }\n"
+            "def finish2(x: i64, y: i64): i64 { if x == y { exit dbl(x) } else { exit dbl(y) + 1 } }\n"
+            "def jump(x: i64, k: cns i64): i64 { goto k (dbl(x) + 1) }\n"
+            "def jump2(k: cns i64, x: i64, j: cns i64): i64 { if x == 0 { goto k (dbl(x)) } else { goto j (dbl(x) + 1) } }\n")
+    bodies = {
+        'unit-call': "show(a).case { U => show(b).case { U => a + b } }",
+        'unit-inline': "(println_i64(a); U).case { U => b - a }",
+        'unit-exit': "check(a).case { U => show(b).case { U => a - b } }",
+        'unit-goto': "label k { (if a == 0 { goto k (7) } else { show(a) }).case { U => b } }",
+        'unit-in-let': "let u: Unit = show(a); let w: Unit = check(b); u.case { U => w.case { U => a * b } }",
+        'single-clause-binding': "(println_i64(a); Tup(a, b)).case[i64, i64] { Tup(p, q) => q - p }",
+        'noreturn-exit': "println_i64(a); finish(b)",
+        'noreturn-exit-branches': "finish2(a, b) + 1",
+        'noreturn-goto': "(label k { jump(a, k) + 1000 }) - b",
+        'noreturn-goto2': "(label k { (label j { jump2(k, a, j) + 1000 }) + 50 }) - b",
+    }
+    for k, b in bodies.items():
+        out.append({'name': f"unit-noreturn/{k}", 'src': prog(b, extra_defs=defs)})
+    return out
+
+
 def all_programs(tier='quick'):
     ps = name_reuse(("v", "x0") if tier == 'quick' else ("v", "x0", "a0", "x")) + generated_names() + effects_in_arguments() + cut_shapes() + live_variables()
-    return ps + fresh_clash() + lift_order() + positions_and_codata() + clause_orders_and_nested_types() + argument_permutations(tier) + scrutinee_reuse() + nested_labels() + covariable_arguments() + conditional_operand_effects() + goto_in_arguments() + program_level()
+    return ps + fresh_clash() + lift_order() + positions_and_codata() + clause_orders_and_nested_types() + argument_permutations(tier) + scrutinee_reuse() + nested_labels() + covariable_arguments() + conditional_operand_effects() + goto_in_arguments() + program_level() + unit_and_noreturn()
 
 
 def effect_sequenced(tier='quick'):
     """programs inside the fragment where Fun's evaluation order is unambiguous (C01, C02): no effects in call /
     constructor / destructor / operator arguments and no effects under codata-typed bindings"""
-    return name_reuse(("v", "x0") if tier == 'quick' else ("v", "x0", "a0", "x")) + generated_names() + cut_shapes() + live_variables() + fresh_clash() + lift_order() + [p for p in positions_and_codata() if not p['name'].startswith('codata-eff')] + clause_orders_and_nested_types() + argument_permutations(tier) + scrutinee_reuse() + nested_labels() + covariable_arguments() + conditional_operand_effects() + program_level()
+    return name_reuse(("v", "x0") if tier == 'quick' else ("v", "x0", "a0", "x")) + generated_names() + cut_shapes() + live_variables() + fresh_clash() + lift_order() + [p for p in positions_and_codata() if not p['name'].startswith('codata-eff')] + clause_orders_and_nested_types() + argument_permutations(tier) + scrutinee_reuse() + nested_labels() + covariable_arguments() + conditional_operand_effects() + program_level() + unit_and_noreturn()
